@@ -137,6 +137,22 @@ contract(f"{TK}::Token.unserialize", "unserialize(plaintext_signed)==token",
                   "result._hash == hashlib.sha3_256(t.get_plaintext_signed()).digest()"],
          note="the wire form (prev hash, content hash, signature) reloads to the same token at any offset")
 
+# ... whatever the row holds (a damaged or foreign row as well): content that does not hash to the row's content pointer is never attached
+contract(f"{TK}::Token.from_database_tuple", "reload.never-attaches-unbound-content",
+         vars={"prev": BYTES_N(32), "sig": BYTES, "ch": BYTES_N(32), "content": OPT(BYTES), "TOK": EXPR(f"resolve_class('{TK}::Token')")},
+         call="TOK.from_database_tuple(prev, sig, ch, content)", raises=[],
+         ensures=["result.content_hash == ch and result.previous_token_hash == prev and result.signature == sig",
+                  "result.content is None or hashlib.sha3_256(result.content).digest() == ch",
+                  "content is None or hashlib.sha3_256(content).digest() != ch or result.content == content"],
+         covers=["result.content is not None", "result.content is None"],
+         note="a reloaded token carries content only if that content hashes to the token's (signed) content pointer")
+
+# ... and the constructor offers no way around it: content and content pointer are never both taken from the caller
+contract(f"{TK}::Token.__init__", "constructor.content-and-pointer-never-both-from-the-caller",
+         vars={"prev": BYTES_N(32), "sig": BYTES, "ch": BYTES_N(32), "content": BYTES, "TOK": EXPR(f"resolve_class('{TK}::Token')")},
+         call="TOK(prev, content, ch, None, sig)", raises=["RuntimeError"], ensures=["False"], ensures_raise=["raised == 'RuntimeError'"],
+         note="giving both a content and a content hash is refused: the pointer of a token with content is always computed from it")
+
 contract(f"{TK}::Token.to_database_tuple", "database-tuple-roundtrip",
          vars={"t": TOKEN(), "TOK": EXPR(f"resolve_class('{TK}::Token')")},
          requires=["t.content is None or hashlib.sha3_256(t.content).digest() == t.content_hash"],
@@ -206,3 +222,23 @@ contract(f"{SO}::AbstractSignedObject.verify", "verify.verdict-is-per-key",
          call="(t.verify(k1), t.verify(k2))", raises=[],
          ensures=["implies(result[1], signed_by(t, k2.ec.bin))", "implies(result[0], signed_by(t, k1.ec.bin))"],
          note="also holds for Metadata and Attestation objects, which share this method")
+
+# the full dump lists the tokens in the order they entered the tree (a parent always entered before its children): a receiver that offers
+# the chunks in that order never has to park one, so reloading a dump does not depend on the size of the waiting area
+def mk_elements(tokens):
+    d = {}
+    for x in tokens:
+        d[x._hash] = x
+    return d
+
+
+contract(f"{TT}::TokenTree.serialize_public", "serialize_public.full-dump-in-insertion-order",
+         vars={"a": TOKEN(), "b": TOKEN(), "c": TOKEN(),
+               "tree": OBJ(f"{TT}::TokenTree", public_key=PK, private_key=EXPR("None"), genesis_hash=BYTES_N(32), _logger=LOGGER(),
+                           elements=EXPR("mk_elements([a, b, c][:n_el])"), unchained=EXPR("OrderedDict()"), unchained_max_size=EXPR("100"))},
+         instances=[{"n_el": n} for n in (0, 1, 2, 3)],
+         requires=["a._hash != b._hash and a._hash != c._hash and b._hash != c._hash"],
+         call="tree.serialize_public()", raises=[],
+         ensures=["result == b''.join([x.get_plaintext_signed() for x in [a, b, c][:n_el]])"],
+         bounded="trees of 0..3 tokens",
+         note="chunk k of the dump is the k-th token that entered the tree")
